@@ -31,7 +31,7 @@ CHECKS = {
     "C15": dict(
         technique="deterministic simulation: PRNG device with simulated entropy source (EINTR/EAGAIN/EIO), NV storage faults (errors, short/torn writes) and power loss; twin-tape influence runs; inverse-permutation state oracle",
         category="exploration",
-        text="Seeded histories of init/fetch/feed/reseed/save/load/ascon_random/free/power-loss on a simulated device: the entropy tape and its faults come from a wrapped getrandom(), the flash page and its faults from the ascon_storage_t callbacks. Oracles are the sentences of the property: same plan twice => same output; flipping one consumed tape byte, one fed byte or one byte of a stored seed that is later loaded changes every later block >= 16 bytes; after every init/fetch/feed/reseed/save/load p^-1(state) has a zero rate; a fetch after 16384 produced bytes draws from the source first; every status equals the injected health of source/storage. Sampling over histories x fault sequences.",
+        text="Seeded histories of init/fetch/feed/reseed/save/load/ascon_random/free/power-loss on a simulated device: the entropy tape and its faults come from a wrapped getrandom(), the flash page and its faults from the ascon_storage_t callbacks. Oracles are the sentences of the property: same plan twice => same output; flipping one consumed tape byte, one fed byte or one byte of a stored seed that is later loaded changes every later block >= 16 bytes; after every init/fetch/feed/reseed/save/load p^-1(state) has a zero rate; a fetch after 16384 produced bytes draws from the source before it produces output (whether a draw comes before or after the output of a call is observed from the source's side, so a generator that reseeds as soon as the limit is reached is judged correctly too); every status equals the injected health of source/storage. Sampling over histories x fault sequences.",
         note="Trusted: harness p^-1 (validated against embedded known answers and its own forward direction, not against the library; on a build whose permutation differs from the model the p^-1 oracle is skipped and counted); Linux no-split guarantee for getrandom <= 256 bytes; status convention of random.h as repaired by the F12 fix commit.",
         design="§3 W3, §4 C15"),
     "C16": dict(
@@ -49,7 +49,7 @@ CHECKS = {
     "C19": dict(
         technique="deterministic simulation: the tools' real main() in forked simulated processes over an in-memory file system with scripted syscall faults (EINTR/EAGAIN/short I/O/EIO/ENOSPC/open failure), crash points, tampering and entropy failure; thorough adds systematic k-th-call and every-byte sweeps",
         category="exploration",
-        text="Seeded scenarios of asconcrypt (-e/-d/auto-detect/-o/-p/-k/-g/stdin-stdout) and asconsum (hash and -c check mode) run as simulated processes against a simulated OS; faults and crash points are attached to a specific call of a specific invocation. Oracles: round-trip identity; exit != 0 and no output file after wrong password, any bit flip, truncation (= writer crashed after any prefix), extension, any hard I/O fault or entropy failure; transient faults end in correct success or loud failure; asconsum output equals the library digest lines; check mode says OK exactly for unmodified files. Thorough adds fault_enumeration-style sweeps (k-th read/write fails for every k; every truncation length; one bit in every byte) on small files; the claimed level stays exploration because scenarios are sampled.",
+        text="Seeded scenarios of asconcrypt (-e/-d/auto-detect/-o/-p/-k/-g/stdin-stdout, several inputs per invocation, an older longer file at the output name) and asconsum (hash and -c check mode with spoiled, duplicated and missing entries) run as simulated processes against a simulated OS; faults and crash points are attached to a specific call of a specific invocation. Oracles: round-trip identity; exit != 0 and no output file after wrong password, any bit flip, truncation (= writer crashed after any prefix), extension, any hard I/O fault or entropy failure; transient faults end in correct success or loud failure; asconsum output equals the library digest lines; check mode says OK exactly for unmodified files. Thorough adds fault_enumeration-style sweeps (k-th read/write fails for every k; every truncation length; one bit in every byte) on small files; the claimed level stays exploration because scenarios are sampled.",
         note="Trusted: the simulated OS (simos.c); whether a left-over file is a valid container is decided by the tool's own fault-free decrypt of it (no container format or PBKDF2 parameter is hard-coded in the oracle); PBKDF2 rounds reduced by a wrapper in most runs; close() errors, hard read errors in check mode, the exit status after a malformed list line, whether an empty or >= 1000-character password is accepted, and the layout of digest lines and key files are not judged (not in the statement).",
         design="§3 W5, §4 C19"),
     "C20": dict(
@@ -92,7 +92,7 @@ CHECKS = {
         technique="deterministic simulation: seeded interleaved object histories (chunking, copy, re-init, free, dirty-memory reuse) checked against the library's own single-call form",
         category="exploration",
         text="Seeded search over histories: up to 6 live incremental objects (hash, xof, prf, hmac, kmac, kdf, hkdf, incremental AEAD; both permutation families) are driven through randomly chunked absorb/squeeze/encrypt/decrypt calls (declared lengths up to 2^29 for the length-prefixed modes, HKDF up to and across its 8160-byte limit), copies, re-inits, several packets per incremental AEAD session, frees and re-use of dirty memory, interleaved by a seeded scheduler; after every output the transcript must equal the library's one-shot (or fresh single-call) result. Sampling, not proof; the right level because the quantifier is over unbounded call histories.",
-        note="Trusted: the library's one-shot functions as the reference (what they compute is C03/C04/C05, not claimed); gcc; the harness' transcript model. Absorb-after-squeeze is not generated.",
+        note="Trusted: the library's one-shot functions as the reference (what they compute is C03/C04/C05, not claimed); gcc; the harness' transcript model. Absorb-after-squeeze is not generated. Calls longer than a few KiB exist in the thorough tier only (batch `huge`: one absorb/update call of 2^32+k bytes behind a partly filled block, nine families).",
         design="§3 W2, §4 C07"),
 }
 
